@@ -49,8 +49,10 @@ def generate(seed, tier):
     if r.random() < 0.5:
         watches += r.sample(WATCHES_BAD, r.choice((1, 1, 2)))
         r.shuffle(watches)
+    # the condition belongs to the tracepoint: it guards every kind of action, not only snapshots
+    kind = r.choice(("snapshot", "snapshot", "snapshot", "log", "metric", "span"))
     return {"rows": hitcommon.gen_rows(r, n), "cond": cond, "fire_count": r.choice(("1", "2", "-1", "3")),
-            "watches": watches, "via": r.choice(("service", "register")),
+            "watches": watches if kind == "snapshot" else [], "via": r.choice(("service", "register")), "kind": kind,
             "knobs": common.draw_knobs(r, stall_p=0.0)}
 
 
@@ -66,17 +68,34 @@ def execute(s, ch):
     viol = []
 
     def install(w, p, k):
+        from deepproto.proto.tracepoint.v1 import tracepoint_pb2 as tpb
+        from deep.api.tracepoint.tracepoint_config import MetricDefinition
         args = {"fire_count": s["fire_count"], "fire_period": "0", "condition": s["cond"]}
+        kind = s.get("kind", "snapshot")
+        line = hitcommon.TP_LINE
+        if kind != "snapshot":
+            args["snapshot"] = "no_collect"
+        if kind == "log":
+            args["log_msg"] = "hit {i}"
+        elif kind == "span":
+            args["span"] = "line"
+        elif kind == "span-method":
+            args.update(span="method", method_name="hit")
+            line = -1
         if s["via"] == "service":
-            w.service.set_config([w.service.make_tp("tp", p.basename, hitcommon.TP_LINE, args, s["watches"])], "h1")
+            ms = [tpb.Metric(name="m_hit", type=tpb.MetricType.COUNTER)] if kind == "metric" else []
+            w.service.set_config([w.service.make_tp("tp", p.basename, line, args, s["watches"], ms)], "h1")
             w.deep.poll.poll()
         else:
-            w.deep.register_tracepoint(p.basename, hitcommon.TP_LINE, args, s["watches"])
+            ms = [MetricDefinition("m_hit", "COUNTER")] if kind == "metric" else []
+            w.deep.register_tracepoint(p.basename, line, args, s["watches"], ms)
 
     exprs = list(s["watches"])
     if s["cond"].strip():
         exprs.append(s["cond"])
-    k, hits, ctx = hitcommon.run_hits(s, ch, install, exprs)
+    kind = s.get("kind", "snapshot")
+    eff_kind = {"span-method": "span"}.get(kind, kind)
+    k, hits, ctx = hitcommon.run_hits(s, ch, install, exprs, plugins=[{"name": "RecAll", "kinds": ["logger", "metric", "span"]}])
     if ctx.get("raised"):
         viol.append(V("trace-call-raised:%s" % ctx["raised"][0][5], str(ctx["raised"][0])))
     lim = RefLimiter(s["fire_count"], 0)
@@ -94,7 +113,7 @@ def execute(s, ch):
             else:
                 truth = False
                 why = "%s(%s)" % (type(val).__name__, val)
-        snaps = [e for e in h.effects if e[0] == "snapshot"]
+        snaps = [e for e in h.effects if e[0] == eff_kind]
         if truth is None:
             continue
         exp = lim.hit(h.index + 1, condition=truth)
@@ -110,7 +129,7 @@ def execute(s, ch):
                           "(truth, expected, got) %s; agent errors %s" % (h.index, s["cond"], why, exp, bool(snaps),
                                                                           s["fire_count"], pattern, h.errors[:1])))
             break
-        if not snaps:
+        if not snaps or kind != "snapshot":
             continue
         # ---- scope: every watch against the reference evaluation in the frame's own scope
         es = snaps[0][2]
@@ -160,7 +179,7 @@ def execute(s, ch):
     k.probe("snapshots_with_failing_and_good_watch", mixed_watch)
     key = None
     if (any(g for _, _, g in pattern) and any(not t for t, _, _ in pattern)) or mixed_watch:
-        key = repr((s["cond"], s["fire_count"], s["watches"], pattern))
+        key = repr((s.get("kind"), s["cond"], s["fire_count"], s["watches"], pattern))
     seen, vs = set(), []
     for v in viol:
         if v["sig"] not in seen:
